@@ -239,7 +239,13 @@ Definition spec_ok (s : e2espec) (c : e2ecase) : bool :=
   | XC14 must_fail => c14_ok must_fail c
   | XC15 => match ec_impl c with ETimeout => false | _ => true end
   | XC17 file line col text => c17_ok file line col text c
-  | XTwin other wl => e2eobs_eqb (ec_impl c) other wl
+  | XTwin other wl =>
+      e2eobs_eqb (ec_impl c) other wl &&
+      (* a file written by the command line of the same case (with its -D texts) holds the twin's blocks *)
+      match other, front_file (ec_cli c) with
+      | EOk mem, Some f => file_matches (ec_format c) (ec_copier c) mem f
+      | _, _ => true
+      end
   | XTwinErrClass other =>
       match ec_impl c, other with
       | EOk _, EOk _ => e2eobs_eqb (ec_impl c) other true
